@@ -271,7 +271,7 @@ package parse
 //@ func scanNumber
 //@   props C05
 //@   requires lexerOK(l)
-//@   at call (*lexer).acceptRun#0 assert[the-hexadecimal-digits-start-right-after-the-two-character-prefix;C01] l.pos >= old(l.pos) + 2 && l.pos <= old(l.pos) + 6
+//@   at call (*lexer).acceptRun#1 assert[the-hexadecimal-digits-start-right-after-the-two-character-prefix;C01] l.pos >= old(l.pos) + 2 && l.pos <= old(l.pos) + 6
 //@   at call (*lexer).accept#3 assert[exponent-marker;C17] bytesare(arg1, "e")
 //@   at call (*lexer).accept#4 assert[exponent-sign-as-the-printer-writes-it;C17] bytesare(arg1, "+-")
 //@   modifies l.pos, l.width
